@@ -679,9 +679,13 @@ theorem source_steps_atomic :
     (under "Syncer.allowConnect" "call s.mu.Lock" "call s.mu.Unlock"
         ["range s.peers", "event s.allow.ok", "event s.allow.rej"] = true) ∧
     (under "Syncer.addPeer" "call s.mu.Lock" "call s.mu.Unlock"
-        ["range s.peers", "index s.peers", "event s.addpeer", "event s.addpeer.rej"] = true) :=
+        ["range s.peers", "index s.peers", "event s.addpeer", "event s.addpeer.rej"] = true) ∧
+    -- the peer store can only refuse a peer BEFORE it is inserted
+    ((before "Syncer.addPeer" "call s.pm.AddPeer" "call s.mu.Lock" &&
+      before "Syncer.addPeer" "call s.pm.UpdatePeerInfo" "call s.mu.Lock" &&
+      before "Syncer.addPeer" "call s.pm.UpdatePeerInfo" "index s.peers") = true) :=
   ⟨tg_add_atomic, tg_stop_close_locked, tg_stop_waits_unlocked, tg_stop_hook_before_close, acquire_atomic, release_atomic,
-   allow_atomic, addPeer_atomic⟩
+   allow_atomic, addPeer_atomic, addPeer_store_before_insert⟩
 
 open Verif.Extracted.ConcFacts in
 /-- every exit path of the handler and of `runPeer` returns what it took, the per-peer path only
